@@ -445,20 +445,40 @@ func (c *Connection) callOnExchangeChange() {
 	}
 }
 
-// ping sends a ping message and waits for a ping response.
+// ping sends a ping message and waits for a ping response. A ping that cannot
+// be sent fails the connection.
 func (c *Connection) ping(ctx context.Context) error {
+	site, err := c.sendPingAndWait(ctx)
+	if site != "" {
+		return c.connectionError(site, err)
+	}
+	return err
+}
+
+// healthCheckPing is ping for the health-check goroutine: a ping that cannot be
+// sent is one more failed check for the caller to count. It must not fail the
+// connection from here: connectionError stops the health checker and waits for
+// the health-check goroutine, which is the caller.
+func (c *Connection) healthCheckPing(ctx context.Context) error {
+	_, err := c.sendPingAndWait(ctx)
+	return err
+}
+
+// sendPingAndWait sends a ping and waits for the response. If the ping could not
+// be sent, site names the step that failed.
+func (c *Connection) sendPingAndWait(ctx context.Context) (site string, _ error) {
 	req := &pingReq{id: c.NextMessageID()}
 	mex, err := c.outbound.newExchange(ctx, c.outboundCtxCancel, c.opts.FramePool, req.messageType(), req.ID(), 1)
 	if err != nil {
-		return c.connectionError("create ping exchange", err)
+		return "create ping exchange", err
 	}
 	defer c.outbound.removeExchange(req.ID())
 
 	if err := c.sendMessage(req); err != nil {
-		return c.connectionError("send ping", err)
+		return "send ping", err
 	}
 
-	return c.recvMessage(ctx, &pingRes{}, mex)
+	return "", c.recvMessage(ctx, &pingRes{}, mex)
 }
 
 // handlePingRes calls registered ping handlers.
